@@ -4,8 +4,9 @@ import Fabio.Model.C08
 OBLIGATIONS over the facts regenerated from `/repo` on every run (`tools/factgen/c08.go`): statements the proof
 chain needs and that no correspondence stream can establish by running the code. Each names the breaking
 change it is there to exclude. Everything that merely pins the shape of the sequential header code — whose
-input/output behaviour `c08.unit`, `c08.serve`, `c08.proxy` and `c08.hopbyhop` compare with the model on every
-run — lives in `C08Pins.lean` (change detectors). Core only, `decide`.
+input/output behaviour `c08.unit`, `c08.serve`, `c08.proxy`, `c08.hopbyhop` and `c08.main` compare with the model on
+every run — lives in `C08Pins.lean` (change detectors; since round 4 also the option bindings of `config/load.go`,
+which `c08.main` exercises through the real executable). Core only, `decide`.
 -/
 namespace Fabio.Props.C08Facts
 open Fabio Fabio.Model.C08
@@ -17,40 +18,29 @@ def modelCfgFields : List String :=
 
 /-- **The model's configuration space is complete**: `addHeaders`, `addResponseHeaders` (helpers followed) and
 the request-id statement of `ServeHTTP` read exactly the `config.Proxy` fields that `Model.C08.Cfg` has.
-"For every header-related configuration" is quantified over `Cfg`; the generators vary these fields only.
+"For every header-related configuration" is quantified over `Cfg` (and, in `Props/C08Main.lean`, over the
+options that fill it); the generators vary these fields only.
 Excludes: a new switch read by the header code (say `cfg.TrustForwardedHeaders`) that changes what the upstream
 is told — every stream would keep running with the new field at its zero value and stay green. -/
 theorem model_cfg_fields_complete : Generated.C08.headerConfigFields = modelCfgFields := by decide
 
-/-- **Every one of those fields is bound to one documented option, of the right kind, defaulting to the
-default configuration** (`config/load.go`), and the default configuration sets none of them except `LocalIP`
-(so without configuration: no client-IP header, no TLS header, no request id, no HSTS).
-Excludes: `proxy.header.tls` bound to `TLSHeaderValue` and vice versa, an option dropped, a default that switches
-a header on. No C08 stream runs `config.Load` (the C08 harness hands `config.Proxy` values to the proxy). -/
-theorem header_options_bound :
-    Generated.C08.headerOptionBindings =
-      ["proxy.header.clientip -> ClientIPHeader : String : default",
-       "proxy.header.requestid -> RequestID : String : default",
-       "proxy.header.sts.maxage -> STSHeader.MaxAge : Int : default",
-       "proxy.header.sts.preload -> STSHeader.Preload : Bool : default",
-       "proxy.header.sts.subdomains -> STSHeader.Subdomains : Bool : default",
-       "proxy.header.tls -> TLSHeader : String : default",
-       "proxy.header.tls.value -> TLSHeaderValue : String : default",
-       "proxy.localip -> LocalIP : String : default"] ∧
-    Generated.C08.headerOptionBindings.length = modelCfgFields.length ∧
-    Generated.C08.headerDefaultsSet = ["LocalIP"] := by decide
-
-/-- **The HTTP(S) listeners serve a proxy that was built with the loaded configuration** (`main.go`): the one
-`proxy.HTTPProxy{…}` literal takes `Config` from the `Proxy` part of its configuration parameter, every handler
-given to `proxy.ListenAndServeHTTP*` comes from that constructor applied to the enclosing function's parameter,
-and that function is started with what `config.Load` returned.
-Excludes: a listener wired to a proxy with a partial or zero `config.Proxy` (all forwarding headers silently
-off in production while every test and stream, which build their own `HTTPProxy`, pass). No harness runs `main`. -/
+/-- **Every HTTP listener serves a proxy that was built with the loaded configuration, unadjusted** (`main.go`):
+the one `proxy.HTTPProxy{…}` literal takes `Config` from the `Proxy` part of its configuration parameter, every
+handler given to `proxy.ListenAndServeHTTP*` comes from that constructor applied to the enclosing function's
+parameter, that function is started with what `config.Load` returned, and nothing in package `main` assigns to a
+built proxy's `Config` or to a header field of the loaded `Proxy` configuration.
+The stream `c08.main` runs the real executable with one listener of each of the three kinds that serve HTTP
+(`http`, `https`, `https+tcp+sni`) and would expose a kind wired differently (seeded change m12: the TLS header
+cleared on listeners without certificates — caught by inputs). What it cannot expose, and this excludes: an
+adjustment that depends on something the stream does not vary (a listener option such as `pxyproto`, a fourth
+listener kind, the registry backend), or a listener wired to a proxy with a partial `config.Proxy` under such a
+condition. -/
 theorem listeners_serve_configured_proxy :
     Generated.C08.httpProxyLiteralConfig = ["param0.Proxy"] ∧
     Generated.C08.httpListenerHandlers.all (· == "built(param)") = true ∧
     Generated.C08.httpListenerHandlers ≠ [] ∧
-    Generated.C08.httpListenersStartedWith = ["config.Load"] := by decide
+    Generated.C08.httpListenersStartedWith = ["config.Load"] ∧
+    Generated.C08.headerConfigWritesInMain = [] := by decide
 
 /-- **Nothing in package `proxy` forwards an HTTP request except behind `addHeaders`**: the constructors of
 forwarding handlers (unexported functions returning `http.Handler`: the `httputil.ReverseProxy` wrapper and the
